@@ -45,7 +45,15 @@ RULE = ('fitted GaussianMultivariate models with 2-6 columns (latent 2-factor no
         'first 2..d columns are near-duplicates (common component + independent noise of relative size 1e-4..1e-1) '
         'or equicorrelated (rho 0.9-0.999), the other columns loading also on one block column\'s own noise; '
         'conditioning on 2..d-1 of the block gives invertible S22 with cond 1e2..1e8 (histogram cond(S22):*); the '
-        'independent float64 reference uses np.linalg.solve, tolerance 1e-10*max(1, cond/100)')
+        'independent float64 reference uses np.linalg.solve, tolerance 1e-10*max(1, cond/100).  OBJECT STATES and '
+        'MULTI-OBJECT histories (tie and search, quick tier too): besides fitted objects, models restored with '
+        'GaussianMultivariate.from_dict / Multivariate.from_dict (with and without a JSON round trip), pickled and '
+        'loaded, and get_instance clones fitted on the same table; groups of 5-6 such models ALIVE AT ONCE with the '
+        'same labels and different correlations are sampled alternately on the same conditioning sets - every call '
+        'must match the independent Schur reference of ITS OWN correlation and the seeded output of the fitted '
+        'object it was made from.  CONSTANT training columns (marginal = explicit class / default Univariate wrapper '
+        '/ restored model), conditioned at the constant, above, below, with an int, alone and with other columns: '
+        'the conditioned column must equal the given value')
 PARTIAL = ['conditional_law_partial: that N(mu_bar, Sigma_bar) IS the conditional law of a partitioned normal is '
            'the classical theorem, not re-proved (its algebraic core - residual uncorrelated with the conditioned '
            'block, residual covariance = Schur complement - is proved); that numpy draws from N(mean, cov) is in '
@@ -72,6 +80,7 @@ CLS_MODIFIED = 'GaussianMultivariate.sample:conditions-object-modified'
 CLS_RAISES = 'GaussianMultivariate.sample:raises-on-valid-conditions'
 CLS_STAT = 'GaussianMultivariate.sample:sample-moments-off-conditional-law'
 CLS_HISTORY = 'GaussianMultivariate.sample:conditional-law-depends-on-fit-history'
+CLS_SHARED = 'GaussianMultivariate.sample:conditional-law-depends-on-other-objects'
 
 STR_POOL = ['b', 'c', 'a', 'B', 'a1', 'Z9', '10', '9', 'x_2', 'd', 'aa', 'C']
 INT_POOL = [3, -1, 10, 2, 7, 0, 25, -8, 100, 4]
@@ -83,8 +92,9 @@ VARIANT_NAME = {('caller', 'truth'): 'AsFound', ('walked', 'notnone'): 'Repaired
 
 def _classes():
     from copulas.univariate import BetaUnivariate, GammaUnivariate, GaussianUnivariate, UniformUnivariate
+    from copulas.univariate import Univariate
     return {'gaussian': GaussianUnivariate, 'beta': BetaUnivariate, 'gamma': GammaUnivariate,
-            'uniform': UniformUnivariate}
+            'uniform': UniformUnivariate, 'default': Univariate}
 
 
 # ------------------------------------------------------------------------------------------ models
@@ -123,6 +133,44 @@ def make_illcond_spec(rng, d=None, kind=None, structure=None, eps=None, gaussian
     return spec
 
 
+ROUTES = ('from_dict', 'base_from_dict', 'json', 'pickle', 'clone_fit')
+
+
+def make_const_spec(rng, d=None, how='explicit'):
+    """a table with one (sometimes two) CONSTANT columns; the constant column's marginal is an explicit class,
+    the default Univariate wrapper (`how='default'`), or the model is restored with from_dict."""
+    d = d or rng.choice([3, 3, 4, 5])
+    spec = make_spec(rng, d=d)
+    spec['dists'] = [rng.choice(['gaussian', 'gaussian', 'uniform', 'gamma']) for _ in range(d)]
+    js = rng.sample(range(d), 2 if d >= 4 and rng.random() < 0.3 else 1)
+    spec['const'] = [[j, rng.choice([0.0, 3.5, -2.0, 1e3, 7])] for j in sorted(js)]
+    for j in js:
+        spec['dists'][j] = 'default' if how == 'default' else rng.choice(['gaussian', 'uniform', 'gamma', 'beta'])
+    if how == 'restored':
+        spec['route'] = rng.choice(['from_dict', 'base_from_dict', 'json'])
+    return spec
+
+
+def const_condition_sets(rng, spec, df, cap=8):
+    """conditions on the constant column(s): at the constant, above, below, alone and with other columns."""
+    labels = spec['labels']
+    out = []
+    for j, value in spec['const']:
+        k = labels[j]
+        others = [x for x in labels if x != k]
+        for v in (float(value), float(value) + rng.choice([1.0, 5.5, 100.0]), float(value) - rng.choice([0.5, 7.25]),
+                  int(value) + 2):
+            out.append([(k, v)])
+            if len(others) >= 2:
+                extra = rng.sample(others, rng.randrange(1, len(others)))
+                its = [(x, v if x == k else pick_value(rng, df[x].to_numpy(), rng.choice(['inside', 'center', 'outside'])))
+                       for x in labels if x == k or x in extra]
+                out.append(its)
+    if len(out) > cap:
+        out = out[:2] + rng.sample(out[2:], cap - 2)
+    return out
+
+
 def block_subsets(rng, spec, cap=None):
     """conditioning sets made of 2..d-1 of the strongly correlated columns (training order)."""
     k = spec['corr']['block']
@@ -142,7 +190,12 @@ _MODELS = {}
 
 def plain(spec):
     """the spec of the LAST fit, without the fit history."""
-    return {k: v for k, v in spec.items() if k != 'refit_from'}
+    return {k: v for k, v in spec.items() if k not in ('refit_from', 'route')}
+
+
+def unrouted(spec):
+    """the spec of the FITTED object a restored / pickled / cloned object was made from."""
+    return {k: v for k, v in spec.items() if k != 'route'}
 
 
 def make_table(spec):
@@ -181,6 +234,8 @@ def make_table(spec):
         else:
             x = loc + scale * u[:, j]
         data[lab] = x
+    for j, value in spec.get('const', []):
+        data[spec['labels'][j]] = np.full(spec['nrows'], float(value))
     return pd.DataFrame(data)
 
 
@@ -196,6 +251,34 @@ def build(spec):
     if key in _MODELS:
         return _MODELS[key]
     from copulas.multivariate import GaussianMultivariate
+    if 'route' in spec:
+        # another OBJECT STATE carrying the same fit: restored from to_dict() (both from_dict routes, with and
+        # without a JSON round trip), pickled and loaded, or a get_instance clone fitted on the same table
+        import pickle
+        from copulas.multivariate import Multivariate
+        from copulas.utils import get_instance
+        fitted, df = build(unrouted(spec))
+        route = spec['route']
+        state = np.random.get_state()
+        try:
+            if route == 'from_dict':
+                model = GaussianMultivariate.from_dict(fitted.to_dict())
+            elif route == 'base_from_dict':
+                model = Multivariate.from_dict(fitted.to_dict())
+            elif route == 'json':
+                model = Multivariate.from_dict(json.loads(json.dumps(fitted.to_dict())))
+            elif route == 'pickle':
+                model = pickle.loads(pickle.dumps(fitted))
+            elif route == 'clone_fit':
+                model = get_instance(fitted)
+                np.random.seed(spec['seed'] % (2 ** 32))
+                model.fit(df)
+            else:
+                raise ValueError(route)
+        finally:
+            np.random.set_state(state)
+        _MODELS[key] = (model, df)
+        return model, df
     cls = _classes()
     history = list(spec.get('refit_from', []))
     dist = {}
@@ -511,31 +594,46 @@ def compare(spec, model, items, n, res, rec, reply):
 def gen_cases(ctx):
     """list of (spec, items(ordered), container, n, tags)."""
     rng = ctx.rng('cases')
-    cases = []
-    n_models = 8 if ctx.tier == "quick" else 100
+    quick = ctx.tier == 'quick'
+    n_models = 8 if quick else 100
     specs = [make_spec(rng, d=3, kind='str'), make_spec(rng, d=2, kind='int'), make_spec(rng, d=4, kind='str')]
     specs += [make_spec(rng) for _ in range(max(0, n_models - len(specs)))]
     # objects with a fit HISTORY (the model is a function of the CURRENT fit only): fit(A), conditional samples
     # on every subset, fit(B) with the same labels; and A -> B -> back to A
     hist = []
-    for spec in specs[:3] + (specs[3:9] if ctx.tier != 'quick' else []):
+    for spec in specs[:3] + (specs[3:9] if not quick else []):
         other = derive_spec(rng, spec)
         hist.append(dict(other, refit_from=[spec]))
         hist.append(dict(spec, refit_from=[spec, other]))
     # ill-conditioned but invertible conditioning blocks (cond(S22) ~ 1e2 .. 1e8)
     ill = [make_illcond_spec(rng, d=3, structure='neardup', eps=10 ** rng.uniform(-4.0, -3.0), gaussian_block=True),
            make_illcond_spec(rng, d=4, structure='equi'), make_illcond_spec(rng, d=6, structure='equi')]
-    ill += [make_illcond_spec(rng) for _ in range(1 if ctx.tier == 'quick' else 20)]
-    specs = specs[:3] + hist + ill + specs[3:]
-    for si, spec in enumerate(specs):
+    ill += [make_illcond_spec(rng) for _ in range(1 if quick else 20)]
+    # tables with CONSTANT columns: explicit marginal class, default Univariate wrapper, restored model
+    const = [make_const_spec(rng, d=3, how='explicit'), make_const_spec(rng, d=3, how='default'),
+             make_const_spec(rng, d=4, how='restored')]
+    const += [make_const_spec(rng, how=rng.choice(['explicit', 'default', 'restored'])) for _ in range(0 if quick else 12)]
+    specs = specs[:3] + hist + ill + const + specs[3:]
+
+    def cases_for(si, spec, forced_subs=None):
+        out = []
         model, df = build(spec)
         labels = spec['labels']
-        subs = subsets(rng, labels)
-        if ctx.tier == 'quick' and len(subs) > 8 and si >= 3:
-            subs = rng.sample(subs, 8)
-        if 'corr' in spec:
-            blk = block_subsets(rng, spec, cap=6 if ctx.tier == 'quick' else 14)
-            subs = blk + [x for x in subs if x not in blk][:4]
+        if forced_subs is not None:
+            subs = forced_subs
+        else:
+            subs = subsets(rng, labels)
+            if quick and len(subs) > 8 and si >= 3:
+                subs = rng.sample(subs, 8)
+            if 'corr' in spec:
+                blk = block_subsets(rng, spec, cap=6 if quick else 14)
+                subs = blk + [x for x in subs if x not in blk][:4]
+            if 'const' in spec:
+                subs = subs[:4]
+                for it in const_condition_sets(rng, spec, df, cap=8 if quick else 14):
+                    for container in ('dict', 'series') if rng.random() < 0.4 else ('dict',):
+                        out.append((spec, it, container, rng.choice([1, 3]),
+                                    {'order': 'training', 'mode': 'constant-column', 'wellformed': True}))
         for sub in subs:
             mode = rng.choice(['inside', 'inside', 'outside', 'edge', 'int', 'center'])
             items = [(k, pick_value(rng, df[k].to_numpy(), mode if rng.random() < 0.8 else 'inside')) for k in sub]
@@ -552,7 +650,9 @@ def gen_cases(ctx):
                     while it == items:
                         rng.shuffle(it)
                 n = rng.choice([1, 2, 5, 8])
-                cases.append((spec, it, container, n, {'order': order, 'mode': mode, 'wellformed': True}))
+                out.append((spec, it, container, n, {'order': order, 'mode': mode, 'wellformed': True}))
+        if forced_subs is not None:
+            return out
         # malformed stream
         k0 = labels[0]
         v0 = pick_value(rng, df[k0].to_numpy(), 'inside')
@@ -561,7 +661,30 @@ def gen_cases(ctx):
                ([(k0, v0), (unknown, 2.0)], 'dict', 'unknown-extra'),
                ([(k, pick_value(rng, df[k].to_numpy(), 'inside')) for k in labels], 'dict', 'all-columns')]
         for it, container, what in (mal if si < 4 or rng.random() < 0.3 else mal[:1]):
-            cases.append((spec, it, container, 3, {'order': 'n/a', 'mode': what, 'wellformed': False}))
+            out.append((spec, it, container, 3, {'order': 'n/a', 'mode': what, 'wellformed': False}))
+        return out
+
+    cases = []
+    for si, spec in enumerate(specs):
+        cases += cases_for(si, spec)
+    # OBJECT STATES, two or more models ALIVE AT ONCE with the same labels and different correlations, sampled
+    # alternately on the same conditioning sets: restored (from_dict / Multivariate.from_dict / JSON), pickled,
+    # get_instance clone fitted on the same table
+    groups = []
+    for base in specs[:2] + ([specs[2]] + [make_spec(rng, d=rng.choice([3, 4])) for _ in range(5)] if not quick else []):
+        other = derive_spec(rng, base)
+        third = derive_spec(rng, base)
+        r = list(ROUTES)
+        rng.shuffle(r)
+        groups.append([dict(base, route=r[0]), dict(other, route=r[1]), dict(third, route=r[2]),
+                       dict(base, route=r[3]), dict(other, route=r[4])])
+    groups[0][0]['route'], groups[0][1]['route'] = 'from_dict', 'base_from_dict'
+    for group in groups:
+        labels = group[0]['labels']
+        subs = all_subsets(labels) if len(labels) <= 3 else rng.sample(all_subsets(labels), 6)
+        per = [cases_for(99, g, forced_subs=subs) for g in group]
+        for tup in itertools.zip_longest(*per):
+            cases += [c for c in tup if c is not None]
     return cases
 
 
@@ -579,6 +702,8 @@ def run(ctx, lean):
         model, df = build(spec)
         cond = container_of(items, container)
         seed = rng.randrange(2 ** 32)
+        if 'route' in spec:
+            _ROUTED_LOG.append((spec, list(items), container, n, seed))
         res, rec = real_run(model, cond, n, seed)
         tab = score_table(model, items)
         draws = rec.mvn[0][3] if rec.mvn else None
@@ -602,6 +727,15 @@ def run(ctx, lean):
             ctx.count('cond(S22):' + ('<1e2' if c22 < 1e2 else '1e%d..' % int(math.floor(math.log10(c22)))))
         ctx.count(f'labels:{spec["kind"]}')
         ctx.count('fit-history:' + (f'{len(spec["refit_from"])}-earlier-fits' if 'refit_from' in spec else 'single-fit'))
+        ctx.count('object-state:' + spec.get('route', 'fitted'))
+        if 'const' in spec:
+            cj = {spec['labels'][j]: v for j, v in spec['const']}
+            hit = [k for k, _ in items if k in cj]
+            ctx.count('constant-column:' + ('not conditioned' if not hit else
+                      'conditioned at the constant' if all(float(v) == float(cj[k]) for k, v in items if k in cj)
+                      else 'conditioned at another value') + ':' +
+                      ('default-wrapper' if 'default' in spec['dists'] else 'explicit-class') +
+                      (':restored' if 'route' in spec else ''))
         ctx.count('real:' + (res[0] if res[0] == 'ok' else 'err ' + res[1]))
         for h in rec.how:
             ctx.count('draws-by:' + h)
@@ -654,6 +788,7 @@ def run(ctx, lean):
 def describe(spec, items, container, n, tags):
     return {'columns': [str(x) for x in spec['labels']], 'dists': spec['dists'], 'seed': spec['seed'],
             'earlier fits of the same object (table seeds)': [sp['seed'] for sp in spec.get('refit_from', [])],
+            'object state': spec.get('route', 'fitted'), 'constant columns': spec.get('const', []),
             'conditions': [[str(k), v] for k, v in items], 'container': container, 'n': n, 'order': tags['order']}
 
 
@@ -709,7 +844,63 @@ def same_object(before, after):
     return type(before) is type(after) and list(before.items()) == list(after.items())
 
 
+_ROUTED_LOG = []     # every call made in this process on a restored / pickled / cloned object, in order
+
+
+class _Probe:
+    """a context that only collects failures (to ask whether the fitted twin fails the same way)."""
+
+    def __init__(self):
+        self.failing = []
+
+    def fail_input(self, entry_point, inp, observed, required, cls=None):
+        self.failing.append({'class': cls or entry_point})
+
+    def count(self, key, n=1):
+        pass
+
+
+def log_payload():
+    models, calls = [], []
+    for spec, items, container, n, seed in _ROUTED_LOG:
+        key = spec_key(spec)
+        idx = next((i for i, m in enumerate(models) if spec_key(m) == key), None)
+        if idx is None:
+            models.append(spec)
+            idx = len(models) - 1
+        calls.append([idx, [list(x) for x in items], container, n, seed])
+    return {'models': models, 'calls': calls,
+            'note': 'every call made in the process on restored / pickled / cloned objects, in order; the last fails'}
+
+
 def oracle_case(ctx, spec, items, container, n, seed, in_order):
+    """the property's statement on one real call; returns number of checks.  A failure on a restored / pickled /
+    cloned object that the FITTED object it was made from does not show is a dependence on other objects in
+    the process (it cannot be replayed from this call alone): it is reported under CLS_SHARED, with the
+    minimal sequence found by `shared_sequence` or else with the whole call log."""
+    if 'route' not in spec:
+        return _oracle_case_impl(ctx, spec, items, container, n, seed, in_order)
+    before = len(ctx.failing)
+    _ROUTED_LOG.append((spec, list(items), container, n, seed))
+    checks = _oracle_case_impl(ctx, spec, items, container, n, seed, in_order)
+    new = ctx.failing[before:]
+    if new:
+        probe = _Probe()
+        _oracle_case_impl(probe, unrouted(spec), items, container, n, seed, in_order)
+        twin_classes = {f['class'] for f in probe.failing}
+        if not {f['class'] for f in new} <= twin_classes:
+            del ctx.failing[before:]
+            ctx.count('search:restored-object-deviates-from-its-fitted-twin')
+            if not any(f['class'] == CLS_SHARED for f in ctx.failing):
+                ctx.fail_input('GaussianMultivariate.sample', log_payload(),
+                               {'object state': spec['route'], 'failures not shown by the fitted twin': [
+                                   {'class': f['class'], 'observed': f['observed']} for f in new]},
+                               'a restored / pickled / cloned object behaves as the fitted object it was made from',
+                               CLS_SHARED)
+    return checks
+
+
+def _oracle_case_impl(ctx, spec, items, container, n, seed, in_order):
     """the property's statement on one real call; returns number of checks."""
     model, df = build(spec)
     cond = container_of(items, container)
@@ -975,6 +1166,94 @@ def history_case(ctx, spec, items, container, n, seed):
     return checks
 
 
+def shared_sequence(ctx, group, calls):
+    """MULTI-OBJECT oracle (deterministic): the models of `group` (same labels, different correlations; restored,
+    pickled, cloned or fitted) are alive at once and `calls` = [(model index, items, container, n, seed)] are
+    made in that order.  Every call must use ITS OWN model's law: the moments handed to the sampler equal the
+    independent Schur reference of that model's own correlation, and the seeded output equals that of the
+    fitted object it was made from.  Stops at the first failure; returns the number of checks."""
+    models = [build(g)[0] for g in group]
+    twins = [build(unrouted(g))[0] for g in group]
+    ep = 'GaussianMultivariate.sample'
+    checks = 0
+    for i, (gi, items, container, n, seed) in enumerate(calls):
+        model, spec = models[gi], group[gi]
+        items = [tuple(x) for x in items]
+        if 'route' in spec:
+            _ROUTED_LOG.append((spec, list(items), container, n, seed))
+        res, rec = real_run(model, container_of(items, container), n, seed)
+        inp = {'models': group, 'calls': [list(c) for c in calls[:i + 1]],
+               'note': 'all models are built first, then the calls are made in this order; the last call fails'}
+        who = f'model {gi} ({spec.get("route", "fitted")}, table seed {spec["seed"]})'
+        checks += 1
+        if res[0] != 'ok':
+            twin_res, _ = real_run(twins[gi], container_of(items, container), n, seed)
+            if twin_res[0] == 'ok':
+                ctx.fail_input(ep, inp, {who: res[2]}, 'the same table as the fitted object it was made from returns',
+                               CLS_SHARED)
+                return checks
+            continue
+        c1, c2, z, mu, sig, cond22 = schur(model, items)
+        if cond22 > 1e8 or not rec.mvn:
+            continue
+        tol = 1e-10 * max(1.0, cond22 / 1e2)
+        zmax = max(1.0, float(np.max(np.abs(z))))
+        cols1 = rec.gcd[0][2][2] if rec.gcd else None
+        lab = list(cols1) if cols1 is not None and sorted(cols1) == c1 else c1
+        perm = [lab.index(c) for c in c1]
+        mean, cov = rec.mvn[0][0], rec.mvn[0][1]
+        checks += 2
+        if not (mean.shape == mu.shape and cov.shape == sig.shape and close_arr(mean[perm], mu, tol * zmax)
+                and close_arr(cov[np.ix_(perm, perm)], sig, tol)):
+            ctx.fail_input(ep, inp, {who: {'mean handed to the sampler': mean.tolist(), 'cov': cov.tolist(),
+                                           'columns': [str(c) for c in lab]}},
+                           f'its OWN conditional law: mean S12 S22^-1 z = {mu.tolist()}, Schur complement {sig.tolist()} '
+                           f'for columns {[str(c) for c in c1]}', CLS_SHARED)
+            return checks
+        twin_res, _ = real_run(twins[gi], container_of(items, container), n, seed)
+        checks += 1
+        if twin_res[0] == 'ok' and not (list(twin_res[1].columns) == list(res[1].columns) and np.allclose(
+                res[1].to_numpy(dtype=float), twin_res[1].to_numpy(dtype=float), rtol=1e-9, atol=1e-12, equal_nan=True)):
+            ctx.fail_input(ep, inp, {who: res[1].head(3).to_numpy().tolist()},
+                           f'the seeded sample of the fitted object it was made from: {twin_res[1].head(3).to_numpy().tolist()}',
+                           CLS_SHARED)
+            return checks
+    return checks
+
+
+def shared_groups(rng, deep):
+    out = []
+    bases = [CANON_SPEC] + [make_spec(rng, d=k) for k in ((2, 3, 4, 5) if deep else (3,))]
+    for bi, base in enumerate(bases):
+        others = [derive_spec(rng, base) for _ in range(2)]
+        r = list(ROUTES)
+        rng.shuffle(r)
+        if bi == 0:
+            r = ['from_dict', 'base_from_dict', 'json', 'pickle', 'clone_fit']
+        out.append([dict(base, route=r[0]), dict(others[0], route=r[1]), dict(others[1], route=r[2]),
+                    dict(base, route=r[3]), dict(others[0], route=r[4]), dict(others[1])])
+    return out
+
+
+def shared_calls(rng, group, deep):
+    labels = group[0]['labels']
+    subs = all_subsets(labels) if len(labels) <= 3 else rng.sample(all_subsets(labels), 8 if deep else 5)
+    calls = []
+    for sub in subs:
+        for rep in range(2):
+            order = list(range(len(group)))
+            if rep:
+                rng.shuffle(order)
+            for gi in order:
+                df = build(group[gi])[1]
+                items = [[k, pick_value(rng, df[k].to_numpy(), rng.choice(['inside', 'center', 'outside']))] for k in sub]
+                if rep and len(items) >= 2:
+                    items = items[::-1]
+                calls.append([gi, items, 'series' if rng.random() < 0.3 else 'dict', rng.choice([1, 3]),
+                              rng.randrange(2 ** 32)])
+    return calls
+
+
 def history_specs(rng, deep):
     """fit histories: same labels / one more column / one column fewer / A -> B -> back to A."""
     out = []
@@ -1009,6 +1288,15 @@ def search(ctx, deep):
         ctx.count('search:canonical-law')
         checks += 1
         ctx.count('search:law:' + law_case(ctx, CANON_SPEC, it, 'dict', 40, 11, True))
+    # several models alive at once (restored / pickled / cloned / fitted; same labels, different correlations),
+    # sampled alternately on the same conditioning sets
+    nshared = 0
+    for group in shared_groups(rng, deep):
+        calls = shared_calls(rng, group, deep)
+        nshared += len(calls)
+        for g in group:
+            ctx.count('search:object-state:' + g.get('route', 'fitted'))
+        checks += shared_sequence(ctx, group, calls)
     n_models = 30 if deep else 5
     # d = 2..5 always present, so that "exactly one column left to sample" is met for every size
     specs = [make_spec(rng, d=k, kind=rng.choice(['str', 'str', 'int'])) for k in (2, 3, 4, 5)]
@@ -1070,6 +1358,20 @@ def search(ctx, deep):
             r = law_case(ctx, spec, citems, 'dict', 40 + 4 * spec['d'], rng.randrange(2 ** 32), True)
             checks += 1
             ctx.count('search:law:' + r + ':ill-conditioned')
+    # constant training columns (explicit class / default wrapper / restored model), conditioned at the constant
+    # and at other values: "the conditioned columns equal the given values" decides
+    nconst = 0
+    cspecs = [make_const_spec(rng, d=3, how='explicit'), make_const_spec(rng, d=4, how='restored'),
+              make_const_spec(rng, d=3, how='default')]
+    cspecs += [make_const_spec(rng, how=rng.choice(['explicit', 'default', 'restored'])) for _ in range(10 if deep else 1)]
+    for spec in cspecs:
+        model, df = build(spec)
+        for it in const_condition_sets(rng, spec, df, cap=14 if deep else 7):
+            for container in ('dict', 'series'):
+                nconst += 1
+                ctx.count('search:constant-column:' + ('default-wrapper' if 'default' in spec['dists'] else 'explicit-class')
+                          + (':restored' if 'route' in spec else ''))
+                checks += oracle_case(ctx, spec, it, container, rng.choice([1, 4]), rng.randrange(2 ** 32), True)
     # fit histories: the conditional law must be that of the CURRENT fit
     nhist = 0
     for what, hspec in history_specs(rng, deep):
@@ -1104,12 +1406,17 @@ def search(ctx, deep):
             if c:
                 ctx.count('search:stat' + (':one-free-column' if len(items) == spec['d'] - 1 else ''))
     ctx.support = {'oracle_checks': checks, 'cases': ncases, 'law_cases': nlaw, 'history_cases': nhist, 'ill_conditioned_cases': nill,
+                   'constant_column_cases': nconst, 'multi_object_calls': nshared,
                    'statistical_cases': nstat,
                    'deep': deep, 'failures': len(ctx.failing)}
 
 
 def replay(ctx, payload_):
     inp = payload_['input']
+    if 'calls' in inp and 'models' in inp:
+        before = len(ctx.failing)
+        shared_sequence(ctx, inp['models'], inp['calls'])
+        return any(f['class'] == payload_.get('class') for f in ctx.failing[before:])
     spec = inp['model']
     items = [(k, v) for k, v in inp['conditions']]
     before = len(ctx.failing)
